@@ -63,13 +63,15 @@ class C02(C01):
         if case["Xdev"] is not None:
             dl = out["dev_labels"]
             sd = stats(dl, case["ydev"])
-            if set(sd) != set(st):
+            # with min_freq_mod > 0 every group holds dev rows; with an explicit 0 a group may be empty on dev
+            # (its dev frequency 0 >= 0): the ranking is then compared on the groups that dev holds
+            if not set(sd) <= set(st) or (mfm > 0 and set(sd) != set(st)):
                 return False, f"label sets differ between train {sorted(st)} and dev {sorted(sd)}"
             nd = sum(len(v) for v in sd.values())
             for k, v in sd.items():
                 if not len(v) / nd >= mfm:
                     return False, f"dev: label {k} carries {len(v)}/{nd} < min_freq_mod={mfm}"
-            order = sorted(st, key=lambda k: pos[k])
+            order = [k for k in sorted(st, key=lambda k: pos[k]) if k in sd]
             rt = [sum(st[k]) / len(st[k]) for k in order]
             rd = [sum(sd[k]) / len(sd[k]) for k in order]
             at = sorted(range(len(order)), key=lambda i: rt[i])
@@ -80,7 +82,8 @@ class C02(C01):
 
     def generate(self, rng, tier):
         n = 260 if tier == "quick" else 5000
-        kinds = ["boundary", "dev", "dev_missing", "dev_invert", "plain", "few", "tied_rates"]
+        kinds = ["boundary", "dev", "dev_missing", "dev_invert", "dev_nan_shift", "dev_nan_shift", "plain", "few",
+                 "tied_rates"]
         return [gen_case(rng, kind=rng.choice(kinds)) for _ in range(n)]
 
 
